@@ -295,7 +295,64 @@ func famMissing(g *sgen, i int) J {
 		"steps": []interface{}{step("postOutbox", "POST", g.header(true), "/users/alice/outbox", a)}}
 }
 
-var families = map[string]family{"ids": famIds, "missing": famMissing, "inbox": famInbox, "outbox": famOutbox, "send": famSend, "get": famGet, "gate": famGate}
+// Create activities and bare objects only (C05's normalisation), through either entry point
+func famCreate(g *sgen, i int) J {
+	ty := []string{"Create", "Note", "Create", "Article"}[i%4]
+	w := g.baseWorld()
+	w["socialCallbacks"] = g.cbConfig([]string{"Create", "Like"})
+	v := g.outboxValue(ty, w)
+	if g.r.bool() {
+		kind := "both"
+		if g.r.chance(25) {
+			kind = "federating"
+		}
+		st := J{"entry": "send", "host": hostA, "path": "/users/alice/outbox", "value": v}
+		return J{"label": "create-send-" + ty, "unordered": kind == "both", "cfg": J{"kind": kind}, "world": w, "steps": []interface{}{st}}
+	}
+	kind := "both"
+	if g.r.chance(25) {
+		kind = "social"
+	}
+	return J{"label": "create-post-" + ty, "unordered": true, "cfg": J{"kind": kind}, "world": w,
+		"steps": []interface{}{step("postOutbox", "POST", g.header(true), "/users/alice/outbox", v)}}
+}
+
+// 1..8 posts to the same and to different outboxes, some of them failing part-way
+func famHistory(g *sgen, i int) J {
+	w := g.baseWorld()
+	w["socialCallbacks"] = g.cbConfig(outboxTypes)
+	w["newIds"] = []interface{}{}
+	if g.r.bool() {
+		w["outboxes"] = J{aliceOutbox: J{"type": "OrderedCollectionPage", "id": aliceOutbox, "orderedItems": asList([]interface{}{local("/activities/old2"), local("/activities/old1")})}}
+	}
+	n := 1 + g.r.intn(8)
+	var steps []interface{}
+	unordered := false
+	for k := 0; k < n; k++ {
+		ty := g.r.pick([]string{"Create", "Note", "Like", "Follow", "Announce", "Block", "Listen", "Update"})
+		v := g.outboxValue(ty, w)
+		path := "/users/alice/outbox"
+		if g.r.chance(30) {
+			path = "/users/dave/outbox"
+		}
+		var st J
+		if g.r.chance(40) {
+			st = J{"entry": "send", "host": hostA, "path": path, "value": v}
+		} else {
+			st = step("postOutbox", "POST", g.header(true), path, v)
+		}
+		if k < n-1 && g.r.chance(20) {
+			st["fault"] = float64(1 + g.r.intn(12))
+		}
+		if ty == "Create" || ty == "Note" {
+			unordered = true
+		}
+		steps = append(steps, st)
+	}
+	return J{"label": "history", "unordered": unordered, "cfg": J{"kind": "both"}, "world": w, "steps": steps}
+}
+
+var families = map[string]family{"create": famCreate, "history": famHistory, "ids": famIds, "missing": famMissing, "inbox": famInbox, "outbox": famOutbox, "send": famSend, "get": famGet, "gate": famGate}
 
 // args: <prop> <count> <maxFaultsPerScenario> fam1,fam2,...
 func genPub(r *rng, thorough bool, args []string, yield func(in J)) {
